@@ -77,12 +77,35 @@ func c04Gen(idx int) c04Case {
 			c.Thr = c.N - 1
 		}
 	}
-	if f := c.N - c.Thr; f > 0 && rng.Chance(60) && c.Pattern != "parked-tick" && c.Pattern != "blackout-slow-clock" {
+	if idx >= c04BaseCases() {
+		// directed: the handling of one tick of node 0 is held for almost two periods (a stalled store read, a
+		// blocked run loop) while everybody's clock runs on; it is released a FRACTION of a second before the time
+		// of head+1, the round the late tick would sign. All clocks agree; the others can run without node 0.
+		c.Pattern = "late-tick-subsecond"
+		if (idx-c04BaseCases())%2 == 1 {
+			// directed: after an outage of the whole network everybody catches up, one round per catch-up period;
+			// node 0's clock then STALLS with its catch-up timer pending while the others finish the catch-up and
+			// tick into the next round, so that node 0's head passes its own clock round before its timer fires
+			c.Pattern = "stalled-catchup"
+			c.CatchupS = 1
+			c.PeriodS = 3 + idx%3
+		}
+		for i := range c.SkewS {
+			c.SkewS[i] = 0
+		}
+		if c.Thr > c.N-1 {
+			c.Thr = c.N - 1
+		}
+	}
+	if f := c.N - c.Thr; f > 0 && rng.Chance(60) && c.Pattern != "parked-tick" && c.Pattern != "blackout-slow-clock" && c.Pattern != "late-tick-subsecond" && c.Pattern != "stalled-catchup" {
 		c.Corrupt = []int{c.N - 1}
 		c.SkewS[c.N-1] = 0
 	}
 	return c
 }
+
+func c04BaseCases() int  { return vfPick(48, 480) }
+func c04ExtraCases() int { return vfPick(8, 60) }
 
 // harness-own arithmetic (whole seconds)
 func c04TimeOfRound(genesis int64, periodS int, r uint64) int64 {
@@ -225,6 +248,32 @@ func c04Run(run *vfRun, c c04Case) {
 		}
 		nt.mu.Unlock()
 	}
+	// late tick: node 0's handling of the tick of round lateRound is held until the harness releases it
+	lateRound := uint64(3 + c.Index%4)
+	lateParked, lateRelease := make(chan struct{}), make(chan struct{})
+	var lateOnce sync.Once
+	if c.Pattern == "late-tick-subsecond" {
+		nt.mu.Lock()
+		nt.onHook = func(name string, n *vfbNode, args []any) {
+			if name != "handler.tick" || n.pos != 0 || len(args) == 0 {
+				return
+			}
+			if round, _ := args[0].(uint64); round != lateRound {
+				return
+			}
+			mine := false
+			lateOnce.Do(func() { mine = true })
+			if !mine {
+				return
+			}
+			close(lateParked)
+			select {
+			case <-lateRelease:
+			case <-time.After(20 * time.Second): // watchdog only
+			}
+		}
+		nt.mu.Unlock()
+	}
 	if err := nt.StartAll(); err != nil {
 		run.Inconclusive(err.Error())
 		return
@@ -232,8 +281,105 @@ func c04Run(run *vfRun, c c04Case) {
 	nt.Settle()
 	period := cfg.Period
 	stalled := map[int]time.Duration{}
+	lateDone := false
 	for r := 0; r < c.Rounds; r++ {
 		pat := c.Pattern
+		if pat == "late-tick-subsecond" && !lateDone && nt.clockRound(nt.nodes[0])+1 == lateRound {
+			lateDone = true
+			nt.Advance(period) // the tick of lateRound fires everywhere; node 0 parks in its handling
+			select {
+			case <-lateParked:
+			case <-time.After(3 * time.Second):
+				close(lateRelease)
+				run.Count("late_ticks_that_never_parked", 1)
+				nt.Settle()
+				continue
+			}
+			nt.Settle()
+			nt.Step(period) // round lateRound+1 is made by the others; node 0 aggregates it from their partials
+			wait := time.Now().Add(2 * time.Second)
+			for nt.Head(nt.nodes[0]) < lateRound+1 && time.Now().Before(wait) {
+				time.Sleep(time.Millisecond)
+			}
+			frac := time.Duration(rng.Range(1, 9)) * 100 * time.Millisecond
+			nt.Advance(period - frac) // every clock now stands `frac` before the time of lateRound+2
+			nt.Settle()
+			headAtRelease := nt.Head(nt.nodes[0])
+			before := atomic.LoadInt64(&emits)
+			close(lateRelease)
+			time.Sleep(30 * time.Millisecond)
+			nt.Settle()
+			if headAtRelease == lateRound+1 {
+				run.Count("late_ticks_released_a_fraction_of_a_second_before_the_time_of_head_plus_one", 1)
+			} else {
+				run.Count("late_ticks_released_with_another_head", 1)
+			}
+			run.Count("partials_emitted_on_late_tick_release", atomic.LoadInt64(&emits)-before)
+			nt.Step(frac) // back on whole seconds: the tick of lateRound+2
+			r += 2
+			continue
+		}
+		if pat == "late-tick-subsecond" {
+			pat = "regular"
+		}
+		if pat == "stalled-catchup" && !lateDone && r == 3 {
+			lateDone = true
+			nt.mu.Lock()
+			nt.dropPct = 100
+			nt.mu.Unlock()
+			for k := 0; k < rng.Range(2, 4); k++ {
+				nt.Step(period)
+			}
+			nt.mu.Lock()
+			nt.dropPct = 0
+			nt.mu.Unlock()
+			n0 := nt.nodes[0]
+			advanceOne := func(only0, except0 bool) {
+				for _, n := range nt.nodes {
+					if (only0 && n.pos != 0) || (except0 && n.pos == 0) {
+						continue
+					}
+					n.clk.Advance(time.Second)
+				}
+				atomic.AddInt64(&nt.activity, 1)
+				time.Sleep(3 * time.Millisecond)
+				nt.Settle()
+			}
+			for k := 0; k < 12*c.PeriodS; k++ {
+				prevHead, prevCR := nt.Head(n0), nt.clockRound(n0)
+				advanceOne(false, false)
+				h, cr := nt.Head(n0), nt.clockRound(n0)
+				if h >= cr {
+					run.Count("catchups_finished_without_a_pending_timer_in_the_last_round", 1)
+					break
+				}
+				if !(h == cr-1 && h > prevHead && cr == prevCR) {
+					continue
+				}
+				// node 0 has just aggregated round cr-1 inside round cr: its catch-up timer is pending. Its clock stalls.
+				stalledFor := 0
+				for i := 0; i < 2*c.PeriodS+2 && nt.Head(n0) < cr+1; i++ {
+					advanceOne(false, true)
+					stalledFor++
+				}
+				if nt.Head(n0) >= cr+1 {
+					run.Count("catchup_timers_pending_while_the_head_passed_the_nodes_clock_round", 1)
+				} else {
+					run.Count("stalled_catchups_where_the_head_did_not_pass_the_clock_round", 1)
+				}
+				before := atomic.LoadInt64(&emits)
+				advanceOne(true, false) // node 0's catch-up timer fires, its clock still (at most) one round on
+				run.Count("partials_emitted_when_the_stalled_timer_fired", atomic.LoadInt64(&emits)-before)
+				for i := 1; i < stalledFor; i++ {
+					advanceOne(true, false)
+				}
+				break
+			}
+			continue
+		}
+		if pat == "stalled-catchup" {
+			pat = "regular"
+		}
 		if pat == "mixed" {
 			pat = []string{"regular", "bursts", "stalls", "substeps"}[rng.Intn(4)]
 		}
@@ -381,7 +527,7 @@ func c04Run(run *vfRun, c c04Case) {
 func TestVF_C04(t *testing.T) {
 	run := vfNewRun("C04", "beaconnet-clocks")
 	defer run.Finish()
-	n := vfPick(48, 480)
+	n := c04BaseCases() + c04ExtraCases()
 	lo, hi := 0, n
 	if ri, ok := vfReplayCase(); ok {
 		lo, hi = ri, ri+1
